@@ -10,6 +10,7 @@ import (
 	"fmt"
 	"sort"
 	"testing"
+	"time"
 
 	"pgregory.net/rapid"
 	"verifharness/internal/dst"
@@ -35,6 +36,10 @@ type Pub struct {
 	// is lost (the caller gets "unavailable" after the remote append happened): the message is
 	// in that node's log once, the publisher is not acknowledged, and nothing is sent twice
 	LostReply []int `json:"lost_reply,omitempty"`
+	// Slow: node indices whose append of this publish takes SlowMs of real time and then
+	// succeeds: a slow destination is not a failed one, and must not cost the others anything
+	Slow   []int `json:"slow,omitempty"`
+	SlowMs int   `json:"slow_ms,omitempty"`
 }
 
 type Case struct {
@@ -130,6 +135,11 @@ func run(c Case) (f *failure, nontrivial bool) {
 			}
 		}
 		cl.SetUnreachable(ids...)
+		for _, u := range p.Slow {
+			if u != c.PubNode && u < c.Nodes && !unreach[u] {
+				cl.Nodes[u].Log.DelayNext(1, time.Duration(p.SlowMs)*time.Millisecond)
+			}
+		}
 		lost := map[int]bool{}
 		for _, u := range p.LostReply {
 			if u != c.PubNode && u < c.Nodes && !unreach[u] {
@@ -168,6 +178,7 @@ func run(c Case) (f *failure, nontrivial bool) {
 		cl.SetUnreachable()
 		for _, n := range cl.Nodes {
 			n.LoseReplies(0)
+			n.Log.DelayNext(0, 0)
 		}
 		// (1) log appends per node
 		for ni, n := range cl.Nodes {
@@ -303,6 +314,12 @@ func TestRandom(t *testing.T) {
 					}
 				}
 				c.Pubs = append(c.Pubs, Pub{Topic: topic, QoS: qos, LostReply: u})
+			}
+			// sometimes one remote node is slow (real time): everything still arrives, everywhere
+			if len(remotes) >= 2 && i == 0 && rapid.IntRange(0, 5).Draw(t, "slow") == 0 {
+				for rep := 0; rep < 3; rep++ { // which destination is visited first is a map-order matter
+					c.Pubs = append(c.Pubs, Pub{Topic: topic, QoS: qos, Slow: []int{rapid.SampledFrom(remotes).Draw(t, "slowNode")}, SlowMs: rapid.SampledFrom([]int{300, 2600}).Draw(t, "slowMs")})
+				}
 			}
 		}
 		check(t, c)
